@@ -3,7 +3,10 @@
 package search
 
 import (
+	"context"
+
 	"github.com/sourcegraph/zoekt"
+	"github.com/sourcegraph/zoekt/query"
 	verifrt "github.com/sourcegraph/zoekt/zz_verifrt"
 )
 
@@ -157,3 +160,168 @@ func H_C25_flushCollect() {
 	verifrt.Observe("events", len(rec.events))
 	verifrt.Reach("returned")
 }
+
+// ---- the whole streaming stack: shardedSearcher.StreamSearch and Search over fake shards
+
+type c25Shard struct {
+	name  string
+	files int
+	base  float64
+	stats zoekt.Stats
+	calls int
+}
+
+var c25SearchCalls int
+
+func (s *c25Shard) Search(ctx context.Context, q query.Q, opts *zoekt.SearchOptions) (*zoekt.SearchResult, error) {
+	s.calls++
+	c25SearchCalls++
+	res := &zoekt.SearchResult{RepoURLs: map[string]string{s.name: "u"}, LineFragments: map[string]string{s.name: "l"}}
+	for k := 0; k < s.files; k++ {
+		res.Files = append(res.Files, zoekt.FileMatch{Repository: s.name, RepositoryID: uint32(s.name[1] - '0'), FileName: "f" + string(rune('a'+k)) + ".go", Score: s.base - float64(k),
+			LineMatches: []zoekt.LineMatch{{Line: []byte("x"), LineNumber: 1, LineFragments: []zoekt.LineFragmentMatch{{MatchLength: 1}}}, {Line: []byte("y"), LineNumber: 2, LineFragments: []zoekt.LineFragmentMatch{{MatchLength: 1}}}}})
+	}
+	res.Stats = s.stats
+	res.Stats.MatchCount = 2 * s.files
+	return res, nil
+}
+func (s *c25Shard) List(ctx context.Context, q query.Q, opts *zoekt.ListOptions) (*zoekt.RepoList, error) {
+	return &zoekt.RepoList{}, nil
+}
+func (s *c25Shard) Close()         {}
+func (s *c25Shard) String() string { return s.name }
+
+type c25Sched struct{}
+
+func (c25Sched) Acquire(ctx context.Context) (*process, error) {
+	return &process{releaseFunc: func() {}}, nil
+}
+
+// H_C25_stack: shardedSearcher.StreamSearch with everything it stacks on the caller's sender
+// (initial statistics event, copyFileSender, limitSender with its cancellation, the flush-collect
+// sender with a modelled timer, streamSearch, sendByRepository) over two fake shards - the first
+// (searched first) with the lower scores - of 0-2 / 1-2 files with two line matches each and
+// symbolic statistics; document display limit 0-2, total match limit 0-2, flush collection off, or
+// on with the timer firing after 0, 1 or 2 shard searches or never; the searcher still loading.
+// One canonical thread schedule (see verifrt.CanonicalSchedule) with every select choice; thorough:
+// up to three files per shard and limits up to 3.
+// No file is delivered twice or invented; at most the display limit is delivered, without limits
+// every file; without a display limit every delivered file is whole (both line matches); when
+// everything was collected before the flush the delivered files are the best-scored ones; every
+// statistics counter summed over the delivered events equals the sum over the searched shards
+// (plus one crash while loading).
+func H_C25_stack() { c25Stack(true) }
+
+// H_C25_stackSearch: the same through the non-streaming shardedSearcher.Search (collectSender).
+func H_C25_stackSearch() { c25Stack(false) }
+
+func c25Stack(streaming bool) {
+	verifrt.ClockConcrete()
+	verifrt.EnableThreads(400)
+	verifrt.CanonicalSchedule()
+	var fakes []*c25Shard
+	var ranked []*rankedShard
+	want := map[string]float64{}
+	for i := 0; i < 2; i++ {
+		f := &c25Shard{name: "r" + string(rune('1'+i)), files: verifrt.Concretize(verifrt.IntRange("files", i, verifrt.Param("maxFiles", 2, 3))), base: float64(3 + 7*i)}
+		verifrt.FillInts(&f.stats, "stats", 0, 1000, "MatchCount")
+		for k := 0; k < f.files; k++ {
+			want[f.name+"/f"+string(rune('a'+k))+".go"] = f.base - float64(k)
+		}
+		fakes = append(fakes, f)
+		ranked = append(ranked, &rankedShard{Searcher: f, priority: float64(2 - i)})
+	}
+	ss := &shardedSearcher{sched: c25Sched{}}
+	ss.ranked.Store(ranked)
+	limit := verifrt.Concretize(verifrt.IntRange("maxDocDisplayCount", 0, verifrt.Param("maxLimit", 2, 3)))
+	total := verifrt.Concretize(verifrt.IntRange("totalMaxMatchCount", 0, verifrt.Param("maxLimit", 2, 3)))
+	opts := &zoekt.SearchOptions{MaxDocDisplayCount: limit, TotalMaxMatchCount: total}
+	finished, clockRunning := false, false
+	fireAfter := -1 // no flush collection
+	if streaming && verifrt.Bool("flushCollect") {
+		opts.FlushWallTime = 1
+		fireAfter = verifrt.Concretize(verifrt.IntRange("timerFiresAfterSearches", 0, 3)) // 3 = never
+		if fireAfter < 3 {
+			clockRunning = true
+			verifrt.Go(func() {
+				verifrt.WaitUntil(func() bool { return finished || (c25SearchCalls >= fireAfter && len(verifrt.Timers) > 0) })
+				for _, t := range verifrt.Timers {
+					t.Fire()
+				}
+				clockRunning = false
+			})
+		}
+	}
+	rec := &c25Recorder{}
+	if streaming {
+		err := ss.StreamSearch(context.Background(), &query.Substring{Pattern: "needle"}, opts, rec)
+		verifrt.Assert(err == nil, "StreamSearch succeeds")
+	} else {
+		res, err := ss.Search(context.Background(), &query.Substring{Pattern: "needle"}, opts)
+		verifrt.Assert(err == nil && res != nil, "Search succeeds")
+		if res != nil {
+			rec.Send(res)
+		}
+	}
+	finished = true
+	verifrt.WaitUntil(func() bool { return !clockRunning })
+	var sum, produced zoekt.Stats
+	seen := map[string]bool{}
+	delivered := 0
+	worstDelivered := 1000.0
+	for i := range rec.events {
+		st := rec.stats[i]
+		verifrt.AddInts(&sum, &st, "")
+		for k, f := range rec.files[i] {
+			sc, ok := want[f]
+			verifrt.Assert(ok, "no file is invented")
+			verifrt.Assert(!seen[f], "no file is delivered twice")
+			seen[f] = true
+			delivered++
+			if sc < worstDelivered {
+				worstDelivered = sc
+			}
+			if limit == 0 {
+				verifrt.Assert(len(rec.events[i].Files[k].LineMatches) == 2, "without a display limit every delivered file is whole")
+			}
+		}
+	}
+	searched := 0
+	for _, f := range fakes {
+		verifrt.Assert(f.calls <= 1, "a shard is searched at most once")
+		if f.calls == 1 {
+			searched++
+			st := f.stats
+			st.MatchCount = 2 * f.files
+			verifrt.AddInts(&produced, &st, "")
+		}
+	}
+	produced.Crashes++ // still loading
+	if limit == 0 && total == 0 {
+		verifrt.Assert(searched == 2 && delivered == len(want), "without limits every shard is searched and every file delivered")
+	}
+	if limit > 0 {
+		verifrt.Assert(delivered <= limit, "at most the document display limit is delivered")
+		if searched == 2 && (!streaming || fireAfter == 3) {
+			// everything was ranked together before the cut: the delivered files are the best ones
+			n := limit
+			if len(want) < n {
+				n = len(want)
+			}
+			verifrt.Assert(delivered == n, "the display limit is filled when there are enough files")
+			better := 0
+			for _, sc := range want {
+				if sc > worstDelivered {
+					better++
+				}
+			}
+			verifrt.Assert(better < n || delivered == 0, "when all results were collected before the cut, the delivered files are the best-ranked ones")
+		}
+	}
+	verifrt.Assert(verifrt.EqInts(&sum, &produced, "Duration,Wait,FlushReason"), "every statistics counter summed over the delivered events equals the sum over the searched shards (plus one crash while loading)")
+	verifrt.Observe("events", len(rec.events))
+	verifrt.Reach("returned")
+}
+
+// metrics are outside the property (and convert the symbolic counters to float64)
+func c25NoMetrics(sr *zoekt.SearchResult) {}
